@@ -5,6 +5,7 @@
 use std::io::{BufRead, Write};
 use std::panic::{catch_unwind, AssertUnwindSafe};
 
+mod alloccount;
 mod dynval;
 mod gen;
 mod ops;
@@ -31,6 +32,11 @@ pub struct CommandDefinition {
 use ops::{ProcReq, RunReq};
 use support::unhex;
 use writers::WriterSel;
+
+/// Every allocation of the process goes through the counting allocator; it
+/// only counts inside the regions opened by the `ALLOC` ops.
+#[global_allocator]
+static GLOBAL: alloccount::CountingAlloc = alloccount::CountingAlloc;
 
 fn bad(reason: &str) -> String {
     format!("bad-op {}", reason)
@@ -88,13 +94,26 @@ fn parse_options(tokens: &[&str], allow_fault: bool) -> Result<Options, String> 
     Ok(options)
 }
 
-fn op_run(t: &[&str]) -> String {
+/// `RUN …` and (with `alloc`) `ALLOC RUN …`; `t[0]` is the `RUN` token.
+fn op_run(t: &[&str], alloc: bool) -> String {
     if t.len() < 4 {
         return bad("args");
     }
     let Some(writer) = WriterSel::parse(t[2]) else {
         return bad("writer");
     };
+    if alloc {
+        // Only fixed-capacity writers, no options, no self-allocating handlers.
+        if !matches!(writer, WriterSel::Hl(_)) {
+            return bad("writer");
+        }
+        if t.len() != 4 {
+            return bad("option");
+        }
+        if gen::handlers_allocate(t[1]) == Some(true) {
+            return bad("iface-allocates");
+        }
+    }
     let mut inputs = Vec::new();
     for part in t[3].split('|') {
         match unhex(part) {
@@ -109,16 +128,26 @@ fn op_run(t: &[&str]) -> String {
     let req = RunReq {
         inputs,
         pend: options.pend,
+        alloc,
     };
     gen::run_dispatch(t[1], writer, &req)
 }
 
-fn op_proc(t: &[&str]) -> String {
+/// `PROC …` and (with `alloc`) `ALLOC PROC …`; `t[0]` is the `PROC` token.
+fn op_proc(t: &[&str], alloc: bool) -> String {
     if t.len() < 5 {
         return bad("args");
     }
     if gen::proc_sizes(t[1]).is_none() {
         return bad("iface");
+    }
+    if alloc {
+        if t.len() != 5 {
+            return bad("option");
+        }
+        if gen::handlers_allocate(t[1]) == Some(true) {
+            return bad("iface-allocates");
+        }
     }
     let Some(n) = parse_usize(t[2]) else {
         return bad("size");
@@ -144,6 +173,7 @@ fn op_proc(t: &[&str]) -> String {
         sched,
         fault: options.fault,
         pend: options.pend,
+        alloc,
     };
     gen::proc_dispatch(t[1], n, &req)
 }
@@ -151,8 +181,14 @@ fn op_proc(t: &[&str]) -> String {
 fn handle(line: &str) -> String {
     let t: Vec<&str> = line.split(' ').collect();
     match t[0] {
-        "RUN" => op_run(&t),
-        "PROC" => op_proc(&t),
+        "RUN" => op_run(&t, false),
+        "PROC" => op_proc(&t, false),
+        // Harness only: heap allocations made inside `run` / `process`.
+        "ALLOC" => match t.get(1).copied() {
+            Some("RUN") => op_run(&t[1..], true),
+            Some("PROC") => op_proc(&t[1..], true),
+            _ => bad("args"),
+        },
         "PARSE" => {
             if t.len() != 4 {
                 return bad("args");
@@ -212,6 +248,15 @@ fn handle(line: &str) -> String {
         }
         // Harness only: exercises the `PANIC` path (the model prints bad-op).
         "SELFTEST" if t.len() == 2 && t[1] == "panic" => panic!("selftest"),
+        // Harness only: checks the counting allocator, prints `alloc=3`.
+        "SELFTEST" if t.len() == 2 && t[1] == "alloc" => alloccount::selftest(),
+        // Harness only: allocations of a non-quiet interface inside `run` are seen.
+        "SELFTEST" if t.len() == 2 && t[1] == "alloc-loud" => ops::alloc_loud_selftest(),
+        // Harness only: a panic inside a counted region must leave counting off.
+        "SELFTEST" if t.len() == 2 && t[1] == "alloc-panic" => {
+            let _region = alloccount::Region::enter();
+            panic!("selftest")
+        }
         _ => bad("op"),
     }
 }
@@ -302,7 +347,10 @@ fn main() {
                 let _ = out.flush();
                 match catch_unwind(AssertUnwindSafe(|| handle(line))) {
                     Ok(result) => result,
-                    Err(_) => String::from("PANIC"),
+                    Err(_) => {
+                        alloccount::reset();
+                        String::from("PANIC")
+                    }
                 }
             }
         };
